@@ -35,7 +35,10 @@ CLAIMED = {
                 "the aligned units containing a written cell, strictly ascending, with the current values. Tied to the code by "
                 "comparison of formatter and tables (exhaustive for widths 12 and 16 in the thorough tier) and a direct read-back "
                 "of the implementation's strings.",
-        "note": NOTE_COMMON + "Python's math.ceil(n/4) is modelled as exact integer ceiling (equal below 2^53).",
+        "note": NOTE_COMMON + "Python's math.ceil(n/4) and math.ceil(len/group) (float division, then ceiling) are modelled as exact integer "
+                "ceiling; Props/C17FloatCeil.v proves the two equal for every 0 <= n < 2^53 and 0 < g <= 2^53 from IEEE binary64 semantics "
+                "(Flocq); these two theorems rest on the standard library's axioms ClassicalDedekindReals.sig_forall_dec, sig_not_dec, "
+                "FunctionalExtensionality.functional_extensionality_dep and Classical_Prop.classic; every other theorem is closed.",
         "technique": TECH,
     },
     "C18": {
